@@ -979,6 +979,84 @@ func (c *cacheScan) clauses(b *ast.BlockStmt, st int) int {
 
 const cacheType, cacheField = "loadingCache", "m"
 
+// functionArgsClones: functionArgs(q) is the "private copy" every XPath function takes of a captured
+// argument query before evaluating it (walkFunc accepts functionArgs(X).Evaluate(..) for that reason).
+// It must return q.Clone(); returning q itself is accepted only inside `if _, ok := q.(*functionQuery); ok`
+// (a functionQuery has no iteration state of its own: its closure clones its own arguments).
+// Anything else is recorded as a direct evaluation of a build-time capture.
+func (a *analyzer) functionArgsClones(fd *ast.FuncDecl) {
+	if fd.Type.Params == nil || len(fd.Type.Params.List) != 1 || len(fd.Type.Params.List[0].Names) != 1 {
+		add(a.f.buildDirectEvals, pair{"functionArgs", "unexpected-signature"}, a.pos(fd.Pos()))
+		return
+	}
+	param := fd.Type.Params.List[0].Names[0].Name
+	isGuard := func(is *ast.IfStmt) bool {
+		// if _, ok := q.(*functionQuery); ok { ... }
+		as, ok := is.Init.(*ast.AssignStmt)
+		if !ok || len(as.Rhs) != 1 {
+			return false
+		}
+		ta, ok := as.Rhs[0].(*ast.TypeAssertExpr)
+		if !ok {
+			return false
+		}
+		id, ok := unparen(ta.X).(*ast.Ident)
+		if !ok || id.Name != param {
+			return false
+		}
+		st, ok := ta.Type.(*ast.StarExpr)
+		if !ok {
+			return false
+		}
+		tn, ok := st.X.(*ast.Ident)
+		return ok && tn.Name == "functionQuery"
+	}
+	seen := false
+	var walk func(n ast.Node, guarded bool)
+	walk = func(n ast.Node, guarded bool) {
+		switch v := n.(type) {
+		case *ast.IfStmt:
+			g := guarded || isGuard(v)
+			walk(v.Body, g)
+			if v.Else != nil {
+				walk(v.Else, guarded)
+			}
+			return
+		case *ast.ReturnStmt:
+			seen = true
+			if len(v.Results) != 1 {
+				add(a.f.buildDirectEvals, pair{"functionArgs", "unexpected-return"}, a.pos(v.Pos()))
+				return
+			}
+			r := unparen(v.Results[0])
+			if id, ok := r.(*ast.Ident); ok && id.Name == param {
+				if !guarded {
+					add(a.f.buildDirectEvals, pair{"functionArgs", "returns-its-argument-without-Clone"}, a.pos(v.Pos()))
+				}
+				return
+			}
+			if c, ok := r.(*ast.CallExpr); ok && len(c.Args) == 0 {
+				if se, ok := unparen(c.Fun).(*ast.SelectorExpr); ok && se.Sel.Name == "Clone" {
+					if id, ok := unparen(se.X).(*ast.Ident); ok && id.Name == param {
+						return
+					}
+				}
+			}
+			add(a.f.buildDirectEvals, pair{"functionArgs", "returns-something-else-than-Clone"}, a.pos(v.Pos()))
+			return
+		case *ast.BlockStmt:
+			for _, st := range v.List {
+				walk(st, guarded)
+			}
+			return
+		}
+	}
+	walk(fd.Body, false)
+	if !seen {
+		add(a.f.buildDirectEvals, pair{"functionArgs", "no-return"}, a.pos(fd.Pos()))
+	}
+}
+
 func (a *analyzer) run() {
 	a.f = facts{
 		pkgvarWrites: map[pair][]string{}, buildCapWrites: map[pair][]string{}, callCapWrites: map[pair][]string{},
@@ -996,6 +1074,9 @@ func (a *analyzer) run() {
 				c := &fnCtx{label: label, name: d.Name.Name, recvName: rn, recvType: rt, lo: d.Pos(), hi: d.End(),
 					isInit: d.Name.Name == "init" && d.Recv == nil, isBuild: a.build[d.Name.Name]}
 				a.walkFunc(c, d.Body)
+				if d.Name.Name == "functionArgs" && d.Recv == nil {
+					a.functionArgsClones(d)
+				}
 				if d.Name.Name == "Clone" && d.Recv != nil {
 					a.cloneMethod(d)
 				}
